@@ -123,7 +123,12 @@ def run_family(name, sessions, configs, chunks=8, module="EggAbs_Trace", timeout
         tr = run_sessions(ss, "%s_%d" % (name, ci), env=env)
         events, bads, diffs = split_validate(tr, name, chunks=chunks, module=module, timeout=timeout)
         out.append((tag, events, bads, diffs))
+        for s2 in ss:
+            SESSIONS[s2["id"]] = (s2, env)
     return out
+
+
+SESSIONS = {}     # session id -> (session, env): for replay artefacts
 
 
 def report(V, fam, results, sessions_by_id=None, maxreports=40):
@@ -142,8 +147,9 @@ def report(V, fam, results, sessions_by_id=None, maxreports=40):
                 continue
             desc = "%s in session %s at command %d `%s` (res=%s %s); diff=%s" % (
                 code, decl["id"], len(cmds), ev.get("text", ""), ev.get("res"), ev.get("msg", "")[:120], str(diffs.get(idx, ""))[:600])
-            V.violation(key, desc, dict(kind="session", family=fam, config=tag, mode=decl.get("mode"),
-                                        setup=None, session_id=decl["id"], prog=decl["prog"], active=decl["active"],
+            full, env = SESSIONS.get(decl["id"], (None, None))
+            V.violation(key, desc, dict(kind="session", family=fam, config=tag, mode=decl.get("mode"), env=env,
+                                        session=full, session_id=decl["id"],
                                         commands=[dict(text=e.get("text"), res=e.get("res"), msg=e.get("msg", "")[:200]) for e in cmds],
                                         first_bad=dict(index=len(cmds), code=code, event=slim(ev)), diff=diffs.get(idx)))
     return n
